@@ -12,6 +12,7 @@ import (
 	"fmt"
 	"math"
 	"sort"
+	"strconv"
 	"strings"
 
 	"github.com/prometheus/prometheus/promql/parser"
@@ -62,7 +63,24 @@ type c29Expr struct {
 	SRText   string
 }
 
-func c29Paren(ls []string) string { return "(" + strings.Join(ls, ", ") + ")" }
+// c29LabelText quotes label names that are not plain identifiers (UTF-8 label names).
+func c29LabelText(l string) string {
+	for i, c := range l {
+		if c == '_' || (c >= 'a' && c <= 'z') || (c >= 'A' && c <= 'Z') || (i > 0 && c >= '0' && c <= '9') {
+			continue
+		}
+		return strconv.Quote(l)
+	}
+	return l
+}
+
+func c29Paren(ls []string) string {
+	q := make([]string, len(ls))
+	for i, l := range ls {
+		q[i] = c29LabelText(l)
+	}
+	return "(" + strings.Join(q, ", ") + ")"
+}
 
 // Text renders the expression; asel/lsel/rsel are the vector selectors.
 func (e *c29Expr) Text(asel, lsel, rsel string) string {
